@@ -17,6 +17,7 @@ CHECKS = {
  "C06": ("exploration", "Preamble cases partly enumerated by run index (all 256 single-bit flips, a byte deviation per position, related passwords, every truncation offset of one valid preamble ended by EOF/reset/stall) and partly seeded (declared padding lengths incl. 0/65534/65535, random strings), delivered through a fragmenting pipe to the real authenticate_client with a sentinel frame (exact-skip oracle), and in 1 of 8 cases through real rustls to the real Server::listen followed by Settings+SYN+destination with the simulated network watched for dials and plaintext replies.", "7/C06", ""),
  "C07": ("exploration", "Whole system in the simulator (real Client + SOCKS5/HTTP/UDP front-ends + real Server + DNS cache on the virtual clock + rustls): histories of 1-12 requests over IPv4/IPv6/name destinations (name lengths 1..255) and boundary ports, with virtual gaps inside and beyond the 60 s cache lifetime, tiny-size padding schemes and a raw TLS client that spreads the destination over several PSH frames; oracle = the simulated network's connect/datagram log after every request.", "7/C07", ""),
  "C10": ("exploration", "Real Client and front-ends against (a) the real Server with targets that accept after a delay / refuse / black-hole and names that resolve slowly / fail / hang, and (b) a scripted TLS server answering each open before / around / after the 30 s wait, twice, for unknown ids, with an error text, never, or killing the session; 1-6 racing opens; oracle on virtual time, the connect log and every byte the application receives (one reply, success only after the connect, reason text, prompt failure on session death).", "7/C10", ""),
+ "C15": ("exploration", "Rounds of datagrams of boundary sizes (1..65507) in both directions through (a) the whole system on a lossless, ordered simulated UDP network (real Client::create_udp_proxy, real sessions over rustls, real Server and handle_udp_over_tcp) and (b) the real handle_udp_over_tcp behind a real server Session fed by a scripted peer that cuts the length-prefixed byte stream into PSH frames at seeded offsets, always inside the first prefix and sometimes one byte per frame; one-for-one, same-size, same-bytes, right-address oracle.", "7/C15", ""),
  "C16": ("exploration", "One seeded client byte stream per run (greeting with 0-255 methods, request with any version/command/reserved/address-type byte, IPv4/IPv6/name of length 0-255, boundary ports, optional truncation at any byte or trailing bytes) written to the real SOCKS5 front-end in seeded segments down to single bytes with delays; targets accept/refuse/black-hole; sibling and fresh connections check isolation; oracle = 60-line reference SOCKS5 server + the simulated network's connect log + reply timing.", "7/C16", ""),
  "C17": ("exploration", "One seeded well-formed proxy request per run (CONNECT / absolute-form / origin-form+Host, methods incl. lower-case and extension, names / IPv4 / bracketed IPv6 with and without ports, header sets with seeded order, Host spelling and position, header blocks padded to ~1 KiB / ~2 KiB / the 64 KiB limit, body bytes in the same segments as the header and later, early tunnel bytes for CONNECT) written to the real HTTP front-end with seeded segmentation; oracle = independent reference for authority, status, the rewritten request the origin must receive byte for byte, and relayed bytes both ways.", "7/C17", ""),
  "C09": ("exploration", "Real client or server Session with blocked readers, pending opens and concurrent writers against a scripted peer; exactly one termination cause per run (EOF / reset / unexpected-EOF / write error / flush error at a seeded byte offset inside or between frames, Alert, owner close at a seeded instant, heartbeat give-up) with shutdown ok/err/hang; oracle on virtual time: closed, transport shut, readers and opens released by t0+2s, no write/open hangs, later attempts fail.", "7/C09", ""),
